@@ -109,15 +109,18 @@ def build_program(rng, nvals):
     checks = []
     # labels far away so that label-valued and %position-valued expressions hit carry boundaries
     gap1 = rng.choice([0x7f0, 0x7fc, 0x800, 0x804, 0xff8, 0x1000, 0x17fc, 0x1800, rng.randrange(4, 0x3000, 4)])
-    body = []
+    body = [('LSTART:', None)]           # a label in front of all code (it never moves), besides the ones behind it
     ctx = rng.random() < 0.5
     if ctx:
         body.append(('FARFN = 0x20000000', None))
     for k in range(nvals):
+        if k == nvals // 2:
+            body.append(('LMID:', None))
         if ctx and rng.random() < 0.3:
             # what else a program does between its pairs: far and near calls, tail calls, indirect jumps, loads and stores, data
             body.append((rng.choice(['call FARFN', 'tail FARFN', 'call LA', 'tail LB', 'jalr x1, x5, 8', 'lw x11, 12(x5)', 'sw x11, -4(x2)', 'jal x1, LA',
-                                     'beq x5, x6, 8', 'dw 0x12345678', 'li x5, 0x12345']), None))
+                                     'beq x5, x6, 8', 'dw 0x12345678', 'li x5, 0x12345',
+                                     'addi x8, x8, 1', 'mv x9, x10', 'add x8, x8, x9', 'lw x8, 4(x9)', 'li x9, 5', 'addi sp, sp, -16']), None))
         v = interesting_value(rng)
         form = rng.choice(['lit', 'const', 'label', 'position', 'constexpr', 'label', 'position', 'parenexpr'])
         name = 'V%d' % k
@@ -237,7 +240,15 @@ def label_offsets(lines, lay):
 
 
 def run_program(asm, acc, lines, checks, compress, seedinfo):
-    lay = monitors.layout(asm, lines, compress)
+    preseed = None
+    if sum(map(ord, seedinfo)) % 3 == 0:
+        # the caller's label table is left over from a build of a differently ordered source: own names, stale values, other order
+        names = [l.strip()[:-1] for l in lines if l.strip().endswith(':') and ' ' not in l.strip()]
+        prng = random.Random(seedinfo + 'pre')
+        prng.shuffle(names)
+        preseed = {'labels': {n: 2 * prng.randrange(0, 6000) for n in names}}
+        acc['ctr']['programs_with_leftover_label_table'] += 1
+    lay = monitors.layout(asm, lines, compress, preseed=preseed)
     acc['n'] += 1
     acc['ctr']['programs'] += 1
     case = {'kind': 'prog', 'lines': lines, 'checks': checks, 'compress': compress}
